@@ -4,7 +4,7 @@
 set -u
 export GOFLAGS=-mod=mod GOPROXY=off GOSUMDB=off GOTOOLCHAIN=local PATH=/opt/veriftools/go1.26.8/bin:$PATH
 export GOCACHE=${GOCACHE:-/root/.cache/go-build}
-V=/verif
+V=$(cd "$(dirname "$0")" && pwd)
 # VERIF_REPO / VERIF_BUILD: evaluation of seeded changes in a scratch worktree (never used by MANIFEST commands)
 REPO=${VERIF_REPO:-/repo}
 B=${VERIF_BUILD:-$V/.build}
